@@ -298,7 +298,18 @@ func scanLevelUse(c *core.Ctx) []ob {
 			}
 			return true
 		})
-		if levelPos == token.NoPos {
+		hasLevelP := false
+		ast.Inspect(fd.Body, func(x ast.Node) bool {
+			if as, ok := x.(*ast.AssignStmt); ok {
+				for _, l := range as.Lhs {
+					if id, ok := l.(*ast.Ident); ok && id.Name == "levelP" {
+						hasLevelP = true
+					}
+				}
+			}
+			return true
+		})
+		if levelPos == token.NoPos && !hasLevelP {
 			return
 		}
 		definedAs := map[string]bool{}
@@ -310,7 +321,7 @@ func scanLevelUse(c *core.Ctx) []ob {
 		var badPos token.Pos
 		ast.Inspect(fd.Body, func(x ast.Node) bool {
 			call, ok := x.(*ast.CallExpr)
-			if !ok {
+			if !ok || levelPos == token.NoPos {
 				return true
 			}
 			f := calleeFunc(info, call)
@@ -350,11 +361,62 @@ func scanLevelUse(c *core.Ctx) []ob {
 			}
 			return true
 		})
+		// (b) the prime product is indexed with the working P-level, not with the P-level of some other object
+		{
+			var lpDefs []string
+			var lpPos token.Pos
+			ast.Inspect(fd.Body, func(x ast.Node) bool {
+				as, ok := x.(*ast.AssignStmt)
+				if !ok || len(as.Lhs) != len(as.Rhs) {
+					return true
+				}
+				for i, l := range as.Lhs {
+					if id, ok := l.(*ast.Ident); ok && id.Name == "levelP" {
+						lpDefs = append(lpDefs, exprString(as.Rhs[i]))
+						if lpPos == token.NoPos {
+							lpPos = as.Pos()
+						}
+					}
+				}
+				return true
+			})
+			if len(lpDefs) > 0 {
+				ast.Inspect(fd.Body, func(x ast.Node) bool {
+					ix, ok := x.(*ast.IndexExpr)
+					if !ok || ix.Pos() < lpPos {
+						return true
+					}
+					sel, ok := unparen(ix.X).(*ast.SelectorExpr)
+					if !ok || sel.Sel.Name != "ModulusAtLevel" {
+						return true
+					}
+					call, ok := unparen(ix.Index).(*ast.CallExpr)
+					if !ok || len(call.Args) != 0 {
+						return true
+					}
+					s2, ok := unparen(call.Fun).(*ast.SelectorExpr)
+					if !ok || s2.Sel.Name != "LevelP" {
+						return true
+					}
+					txt := exprString(call)
+					for _, d := range lpDefs {
+						if d == txt {
+							return true
+						}
+					}
+					bad = append(bad, fmt.Sprintf("ModulusAtLevel is indexed with %s at %s although the working P-level is `levelP` (%s)", txt, c.Rel(ix.Pos()), strings.Join(lpDefs, " / ")))
+					if badPos == token.NoPos {
+						badPos = ix.Pos()
+					}
+					return true
+				})
+			}
+		}
 		props := metaProps(fkey)
 		if len(bad) == 0 {
 			out = append(out, withProps(okOb("LEVELUSE", "LEVELUSE:"+fkey, c.Rel(fd.Pos()), "level-taking callees receive the operation level", true), props...))
 		} else {
-			out = append(out, withProps(violOb("LEVELUSE", "LEVELUSE:"+fkey, c.Rel(badPos), fmt.Sprintf("%s fixes its working level in `level` (%s) but %s: with operands at different levels the callee works at the wrong level", fkey, c.Rel(levelPos), strings.Join(bad, "; "))), props...))
+			out = append(out, withProps(violOb("LEVELUSE", "LEVELUSE:"+fkey, c.Rel(badPos), fmt.Sprintf("%s fixes its working level(s) in local variables but %s: with operands or keys at different levels the computation is carried out for the wrong level", fkey, strings.Join(bad, "; "))), props...))
 		}
 	})
 	c.Stats["leveluse_funcs"] = n
